@@ -7,9 +7,15 @@ From H3V Require Import Base.Bytes Spec.PrefixInt Spec.RFC7541Huffman Spec.Huffm
 
 (* ---------------- prefixed integers (RFC 7541 5.1) ---------------- *)
 
-(* T1: every value of the decoder's range [0, 2^63 - 1 + (2^size - 1)] round-trips, for every prefix
-   size 1..8, every value of the flag bits above the prefix and whatever follows in the buffer *)
-Theorem C15_int_roundtrip :
+(* FULL statement of the property text: "every integer round-trips for every prefix size", i.e.
+     forall size flags v r, 1 <= size <= 8 -> flags < 2^(8-size) -> v < 2^64 -> wf_bytes r ->
+       exists e, pi_encode size flags v = Ok e /\ pi_decode size (e ++ r) = Ok (flags, v, r).
+   PROVED PART (hence `_partial`): the values of the decoder's range [0, 2^63 - 1 + (2^size - 1)], for every
+   prefix size 1..8, every value of the flag bits above the prefix and whatever follows in the buffer.
+   MISSING, and false for h3: the u64 values from 2^63 + 2^size - 1 up are written by the encoder but refused by
+   the decoder (an implementation limit RFC 7541 5.1 allows; RFC 9204 asks for 62 bits) - pinned exactly by
+   C15_int_beyond_range_rejected, so the boundary of the round trip is known to the last value. *)
+Theorem C15_int_roundtrip_partial :
   forall size flags v r,
     1 <= size <= 8 -> flags < 2 ^ (8 - size) -> v < 2 ^ 63 + (2 ^ size - 1) -> wf_bytes r ->
     exists e, pi_encode size flags v = Ok e /\ pi_decode size (e ++ r) = Ok (flags, v, r).
@@ -94,17 +100,19 @@ Proof. exact rfc_huff_decode_iff. Qed.
 
 (* ---------------- T4: Huffman encoder and round trip ---------------- *)
 
-(* the encoder never fails; its output is the concatenation of the RFC codes of the octets followed
+(* (enc_fits s := len s < 2^26: the encoder's u32 bit positions, field widths read from bitwin.rs, and its
+   `7 * byte` capacity computation cannot overflow below that length)
+   the encoder never fails; its output is the concatenation of the RFC codes of the octets followed
    by fewer than 8 one bits (the shortest padding to the octet boundary) - a valid 5.2 encoding *)
 Theorem C15_huffman_encode_canonical :
-  forall s, wf_bytes s ->
+  forall s, wf_bytes s -> enc_fits s ->
     exists e, hpack_encode s = Ok e /\ wf_bytes e /\ valid_huff (bits_of_bytes e) s /\
               (8 * length e < length (codes s) + 8)%nat.
 Proof. exact hpack_encode_valid. Qed.
 
 (* ... and it is, octet for octet, the output of the canonical encoder of the specification *)
 Theorem C15_huffman_encode_is_rfc :
-  forall s, wf_bytes s -> hpack_encode s = Ok (rfc_huff_encode s).
+  forall s, wf_bytes s -> enc_fits s -> hpack_encode s = Ok (rfc_huff_encode s).
 Proof. exact hpack_encode_is_rfc. Qed.
 
 (* every byte string (below 2^26 octets, so that its encoding fits the decoder's u32 positions) round-trips *)
@@ -126,6 +134,32 @@ Theorem C15_string_roundtrip :
     2 <= size <= 8 -> flags < 2 ^ (8 - size) -> wf_bytes s -> len s < 2 ^ 26 -> wf_bytes r ->
     exists enc, ps_encode size flags s = Ok enc /\ ps_decode size (enc ++ r) = Ok (s, r).
 Proof. exact ps_roundtrip. Qed.
+
+(* soundness of the literal decoder on ALL inputs: an accepted literal has the RFC 7541 5.1 length (so a
+   length that does not fit cannot wrap), its value is made of exactly that many payload octets, the
+   rest is left unread, and the H bit selects raw octets or Huffman decoding of exactly those octets
+   (whose result is then constrained by C15_strict_outside_known_class / C15_known_class_behaviour) *)
+Theorem C15_string_decode_sound :
+  forall size bs v rest,
+    2 <= size <= 8 -> wf_bytes bs -> ps_decode size bs = Ok (v, rest) ->
+    exists f n r, rfc_pi_decode (size - 1) bs = Some (f, n, r) /\ n <= len r /\
+      rest = skipn (N.to_nat n) r /\
+      (N.land f 1 = 0 -> v = firstn (N.to_nat n) r) /\
+      (N.land f 1 <> 0 -> 8 * n + 8 < 2 ^ 32 /\ hpack_decode (firstn (N.to_nat n) r) = Ok v).
+Proof. exact ps_decode_sound. Qed.
+
+(* the raw (H = 0) branch, which ps_encode never produces: a length-prefixed octet string comes back unchanged *)
+Theorem C15_string_raw_roundtrip :
+  forall size flags payload r,
+    2 <= size <= 8 -> flags < 2 ^ (8 - size) -> wf_bytes payload -> len payload < 2 ^ 62 -> wf_bytes r ->
+    ps_decode size (rfc_pi_encode (size - 1) (2 * flags) (len payload) ++ payload ++ r) = Ok (payload, r).
+Proof. exact ps_decode_raw. Qed.
+
+Example C15_string_wrapped_length_inhabited :
+  (* declared length 2^32 + 3 with 3 octets present: truncated, not "abc" *)
+  ps_decode 8 [127; 132; 255; 255; 255; 15; 97; 98; 99] = Err PsUnexpectedEnd /\
+  ps_decode 8 [3; 97; 98; 99] = Ok ([97; 98; 99], []).
+Proof. split; vm_compute; reflexivity. Qed.
 
 Theorem C15_string_decode_no_panic :
   forall size bs, 2 <= size <= 8 -> wf_bytes bs -> is_panic (ps_decode size bs) = false.
@@ -209,7 +243,7 @@ Qed.
 Example C15_known_class_inhabited : LongOnesResult [248; 255] [38].
 Proof. exists (repeat true 8). vm_compute. repeat split; auto; lia. Qed.
 
-Print Assumptions C15_int_roundtrip.
+Print Assumptions C15_int_roundtrip_partial.
 Print Assumptions C15_int_beyond_range_rejected.
 Print Assumptions C15_int_encode_is_rfc.
 Print Assumptions C15_int_decode_sound.
@@ -232,3 +266,5 @@ Print Assumptions C15_string_decode_no_panic.
 Print Assumptions C15_string_size1_panics.
 Print Assumptions C15_known_class_decidable.
 Print Assumptions C15_huffman_encode_is_rfc.
+Print Assumptions C15_string_decode_sound.
+Print Assumptions C15_string_raw_roundtrip.
